@@ -1449,8 +1449,11 @@ class PlotImpl:
         n = len(next(iter(self.series.values()), []))
         model = mesa.Model(seed=1)
         model.i = 0
-        model.datacollector = mesa.DataCollector(
-            model_reporters={name: (lambda mm, name=name: self.series[name][mm.i]) for name in self.series})
+        reps = {name: (lambda mm, name=name: self.series[name][mm.i]) for name in self.series}
+        # a further reporter that nobody asks to plot and that has no value at every other step: the plot of a measure shows
+        # every collected value of THAT measure, whatever the other columns hold
+        reps["zz_unplotted_with_gaps"] = lambda mm: None if mm.i % 2 else float("nan") if mm.i % 4 == 0 else 1
+        model.datacollector = mesa.DataCollector(model_reporters=reps)
         for i in range(n):
             model.i = i
             model.datacollector.collect(model)
